@@ -226,6 +226,9 @@ class Runtime(Stream):
         maxn = 24 if tier == "quick" else 64
         for n in range(1, maxn + 1):
             yield {"what": "fft", "n": n, "seed": rng.randint(0, 10**6)}
+        for n in list(range(1, 13)) + [15, 16, 21]:
+            for kind in ("float", "int"):
+                yield {"what": "fft", "n": n, "seed": rng.randint(0, 10**6), "dtype": kind}
         for n in ([97, 128] if tier == "quick" else [97, 128, 210, 360, 509]):
             yield {"what": "fft", "n": n, "seed": rng.randint(0, 10**6)}
         for n in (1, 2, 3, 4, 6, 8):
@@ -253,7 +256,13 @@ class Runtime(Stream):
         from pymbolic import algorithm as al
         if w == "fft":
             n = pl["n"]
-            x = np.array([complex(rng.uniform(-1, 1), rng.uniform(-1, 1)) for _ in range(n)])
+            kind = pl.get("dtype", "complex")
+            if kind == "float":        # real input, complex transform
+                x = np.array([rng.uniform(-1, 1) for _ in range(n)], dtype=np.float64)
+            elif kind == "int":
+                x = np.array([rng.randint(-9, 9) for _ in range(n)], dtype=np.int64)
+            else:
+                x = np.array([complex(rng.uniform(-1, 1), rng.uniform(-1, 1)) for _ in range(n)])
             got = al.fft(x, complex_dtype=np.complex128)
             want = [sum(cmath.exp(-2j * math.pi * k * j / n) * x[j] for j in range(n))
                     for k in range(n)]
